@@ -169,9 +169,9 @@ func runC04Deep(r *Run, rng *Rng, replay string) {
 		} else if dec != nil && dec.ByteSize != len(buf) {
 			// the encoding occupies len(buf) bytes (one shared literal dword at most)
 			r.Failf("C04.roundtrip."+fm, c04DeepLine("inst", fm, op, f, lit), "size %d, but the instruction was encoded in %d bytes (%s)", dec.ByteSize, len(buf), hexb(buf))
-		} else if dec != nil && fm == "vop1" && op == 2 && !operandMatchesCode(dec.Dst, f["vdst"]) {
+		} else if dec != nil && fm == "vop1" && op == 2 && !c04DstMatches(dec, f["vdst"]) {
 			// v_readfirstlane_b32 writes a SCALAR destination: the VDST field is a scalar operand code
-			r.Failf("C04.roundtrip.vop1", c04DeepLine("inst", fm, op, f, lit), "destination code %d decoded as %s", f["vdst"], opndStr(dec.Dst))
+			r.Failf("C04.roundtrip.vop1", c04DeepLine("inst", fm, op, f, lit), "destination code %d is not the decoded destination operand (%s)", f["vdst"], out)
 		} else if dec != nil {
 			// decode(b) = decode(b[:size]): bytes behind the instruction are never read
 			if out2, _ := decodeCanon(dis, buf); out2 != out {
@@ -179,4 +179,13 @@ func runC04Deep(r *Run, rng *Rng, replay string) {
 			}
 		}
 	}
+}
+
+// c04DstMatches: the decoded destination denotes the scalar operand with the given code (a malformed
+// operand object — e.g. a register operand without a register — does not).
+func c04DstMatches(dec *insts.Inst, code uint32) (ok bool) {
+	if f := catch(func() { ok = dec.Dst != nil && operandMatchesCode(dec.Dst, code) }); f != "" {
+		return false
+	}
+	return ok
 }
